@@ -51,6 +51,8 @@ class RefTarget:
         self.rack = cfg.get("rack", {})                      # slot -> identity dict (other modules)
         self.generic = cfg.get("generic", {})                # (service, class, instance, attribute|None) -> (status, ext, data)
         self.forced = list(cfg.get("forced", []))
+        self.unitdata_n = 0
+        self.encap_refused = 0
         self.registered = False
         self.connections = {}    # O->T id -> dict
         self.conn_counter = 0
@@ -132,6 +134,14 @@ class RefTarget:
             data = struct.pack("<HHH", 1, 0x0C, len(item)) + item
             return self.enc_header(cmd, len(data), session, 0, ctx) + data
 
+        if cmd == ENC_UNITDATA:
+            k = self.unitdata_n
+            self.unitdata_n += 1
+            for rule in self.forced:
+                if rule.get("when", {}).get("unitdata") == k:
+                    # the frame is refused at the encapsulation layer: header-only reply with an error status, nothing executed
+                    self.encap_refused += 1
+                    return self.enc_header(cmd, 0, session, rule["status"], ctx)
         if cmd in (ENC_RRDATA, ENC_UNITDATA):
             if not self.registered or session != self.session_handle:
                 if cmd == ENC_UNITDATA:
